@@ -658,6 +658,48 @@ def runtime_error_has_error(rec, F):
     rec.floor(R, "constructions of ExecutionResult::RuntimeError", n, 2)
 
 
+def cache_key_injective(rec, F):
+    R = rec.rule("F4.once-key", "the module cache is keyed by the text full_import_path builds: distinct import paths must give distinct keys, so the key is made of every path segment including the package (no skip / split_first / [1..] on the segments) joined by a separator that cannot occur in a segment")
+    fp = F.find1(r"<impl laythe_vm::vm::Vm>::full_import_path$")
+    if fp is None:
+        rec.anchor_lost("F4.once-key", "Vm::full_import_path")
+        return
+    users = [c for c, bi in F.callers.get(fp.path, [])]
+    keyed = False
+    for c in users:
+        for bi, t in c.calls():
+            if lastseg(t["f"]) in ("get", "insert") and "module_cache" in str(sem.desc_operand(c, t["args"][0])):
+                keyed = True
+    rec.inst(R, "full_import_path's result keys module_cache", ok=keyed, loc=fp.loc)
+    if not keyed:
+        rec.anchor_lost("F4.once-key", "module_cache keyed by full_import_path")
+        return
+    bodies = [fp] + list(F.closures_of(fp))
+    drops = []
+    sep = False
+    for b in bodies:
+        for bi, t in b.calls():
+            n = lastseg(t["f"])
+            if n in ("skip", "split_first", "split_last", "skip_while", "take", "step_by", "last", "nth", "rev"):
+                drops.append((n, t["sp"]))
+            if n == "push" and len(t["args"]) > 1 and t["args"][1].get("const"):
+                sep = True
+            if n == "join" and len(t["args"]) > 1:
+                d = str(sem.desc_operand(b, t["args"][1]))
+                sep = sep or ('""' not in d and "''" not in d)
+        for bi, si, s in b.stmts():
+            r = s["r"]
+            if r["k"] == "agg" and "RangeFrom" in r.get("adt", ""):
+                st = sem.const_int(r["ops"][0]) if r.get("ops") else None
+                if st is None or st > 0:
+                    drops.append(("[%s..]" % (st if st is not None else "n"), s["sp"]))
+    ok = not drops and sep
+    rec.inst(R, "key covers every segment, with a separator", ok=ok, loc=fp.loc, note="separator=%s dropped=%s" % (sep, [d[0] for d in drops]))
+    if not ok:
+        what = ("drops segments (%s)" % ", ".join(d[0] for d in drops)) if drops else "joins the segments without a separator"
+        rec.finding(R, "F4.once-key/full_import_path", "Vm::full_import_path %s: two different import paths (e.g. std.math and self.math) get the same module-cache key, so the second import silently receives the first module and its own file is never run" % what, loc=loc_of(drops[0][1]) if drops else fp.loc, fn=fp.path)
+
+
 def backtrace_window(rec, F):
     R = rec.rule("F10.bt", "pause_unwind appends the instruction pointers of the frames not yet recorded: counting from the innermost frame it first skips the current_len already recorded and then takes additional_len (which is computed relative to that position); finish_unwind/error_backtrace pair frames with those ips innermost first")
     pu = F.fn("laythe_vm::fiber::Fiber::pause_unwind")
@@ -712,6 +754,7 @@ def backtrace_window(rec, F):
 
 
 def run_c17(rec, F):
+    cache_key_injective(rec, F)
     export_gate(rec, F)
     once_only(rec, F)
 
